@@ -9,11 +9,14 @@ E  every tree of a structure family (config / menuconfig / choice / menu / if / 
 O  canonical: validate_file() is True and prints "<path>: OK", with replace=True the bytes are unchanged, without
    replace no `*.new` remains.  mangled (and accepted by parser 1): <= 5 replace passes until OK, the pass that says OK
    is the identity, one more real pass is the identity again, and the fixed point parses under parser 1 and parser 2
-   to the structural dump of the mangled input under parser 1.
+   to the structural dump of the mangled input under parser 1 (an observable may instead return to the reading of the
+   compliant file when the mangling itself had changed it, see ASSUMPTIONS).
+Violation signature: kind (+ exc/site/complaint/field) + mangling kind(s) + entry kind(s) of the mangled line(s) + reading.
 """
 
 from __future__ import annotations
 
+import itertools
 import os
 import re
 import shutil
@@ -32,8 +35,9 @@ RULE = (
     "blanks) and as a sourced Kconfig.body (entries at 0 blanks); every Kconfig* file of a program is a target. "
     "quick: N=1 in all 6 flavour rotations; N=2 (one rotation/position per forest); all container chains of depth 3 around an "
     "option and of depth 2 around a choice; each spelling of `source` after a help text; 2 dedicated programs ('#' in a quoted "
-    "condition, unnamed choice in an `if`). thorough: N<=2 in all rotations and both positions, all chains of depth 2 and 3, "
-    "all forests with N=3, and the single-rooted N=4 forests of depth >= 2 (a quarter of them, chosen by a stable hash). "
+    "condition, unnamed choice in an `if`). thorough: N=1 in all rotations and both positions, N=2 in all rotations (positions alternating), all chains "
+    "of depth 2 and 3 in both positions, all forests with N=3, and the single-rooted N=4 forests of depth >= 2 (one in eight, "
+    "chosen by a stable hash). "
     "MANGLINGS per target: ALL single sites {indent +1..+4, -1..-4, 0, one tab per 4-blank unit, a leading tab, 1 and 2 "
     "trailing blanks, trailing tab, tab inside the first quoted string} x all lines; ALL pairs of sites (same line: different "
     "classes; different lines: at most D non-blank lines apart -- quick D=1; thorough D=3 for N=1, D=2 for N=2 and chains, "
@@ -48,6 +52,10 @@ ASSUMPTIONS = [
     "validate_file() is a function of (file name, file bytes): passes are memoised per worker on the bytes; every "
     "fixed point is additionally re-executed un-memoised once per work item (the 'one more pass')",
     "help text is compared after stripping trailing whitespace of each help line (removing it is the documented rule)",
+    "a mangling can itself change what parser 1 reads (indentation is significant inside help texts, a tab is 8 columns "
+    "for the parser, trailing blanks belong to a macro value): every observable of the fixed point has to keep the reading "
+    "of the mangled input OR return to the reading of the compliant file it was made from; anything else is "
+    "`meaning_changed`. The signature says whether the mangled file read like the compliant one (reading=canonical|shifted)",
     "kconfcheck output is captured by installing a capturing logger through esp_pylib's public EspLog.set_logger()",
     "a two-site violation whose failure class is already produced by one of its two sites alone is attributed to "
     "that single site and not reported as a new class (counter pair_subsumed_by_single)",
@@ -173,8 +181,6 @@ def chains() -> Iterator[tuple]:
     for d in (2, 3):
         for leaf in inner:
             nd = d - 1 if leaf[0] == "choice" else d
-            import itertools
-
             for ws in itertools.product(conts, repeat=nd):
                 node = leaf
                 for w in reversed(ws):
@@ -192,15 +198,6 @@ def leaf_of(forest: tuple) -> str:
     while len(n) > 1 and isinstance(n[1], tuple) and n[1] and n[0] != "choice":
         n = n[1][0]
     return n[0]
-
-
-def n_entries(forest: tuple) -> int:
-    n = 0
-    for node in forest:
-        n += 1
-        if len(node) > 1:
-            n += n_entries(node[1])
-    return n
 
 
 class Rend:
@@ -400,8 +397,9 @@ def programs(tier: str) -> List[Dict[str, Any]]:
                 emit(f, rot, pos, 3 if thorough else 1, "n1")
     for f in forests(2, 3):
         for rot in range(nfl) if thorough else (hrot(f),):
-            for pos in ("main", "sub") if thorough else (hpos(f),):
-                emit(f, rot, pos, 2 if thorough else 1, "n2")
+            # one position per (forest, rotation); the rotation used by the quick tier keeps the quick tier's position
+            pos = ("main", "sub")[(("main", "sub").index(hpos(f)) + rot - hrot(f)) % 2]
+            emit(f, rot, pos, 2 if thorough else 1, "n2")
     for f in chains():
         if not thorough and (depth_of(f), leaf_of(f)) not in ((3, "cfg"), (2, "choice")):
             continue
@@ -418,7 +416,7 @@ def programs(tier: str) -> List[Dict[str, Any]]:
         for f in forests(3, 3):
             emit(f, hrot(f), hpos(f), 1, "n3")
         for f in forests(4, 3):
-            if len(f) == 1 and depth_of(f) >= 2 and common.h64(repr(f) + "s") % 4 == 0:
+            if len(f) == 1 and depth_of(f) >= 2 and common.h64(repr(f) + "s") % 8 == 0:
                 emit(f, hrot(f), hpos(f), 1, "n4")
     return out
 
@@ -1113,8 +1111,6 @@ def rename_lines(kinds: Tuple[str, ...]) -> List[Tuple[str, str]]:
 
 
 def rename_programs(tier: str) -> List[Tuple[str, ...]]:
-    import itertools
-
     out = []
     for n in (1, 2) if tier == "quick" else (1, 2, 3):
         for ks in itertools.product(REN_KINDS, repeat=n):
